@@ -910,6 +910,7 @@ func c16(r *h.Result, rng *h.Rng, tier string, replay string) error {
 				Stream  string     `json:"stream"`
 				Profile c16Profile `json:"profile"`
 				Merge   c16Merge   `json:"merge"`
+				Diff    c16DiffCase `json:"diff"`
 			} `json:"replay"`
 		}
 		if err := json.Unmarshal(b, &f); err != nil {
@@ -917,6 +918,9 @@ func c16(r *h.Result, rng *h.Rng, tier string, replay string) error {
 		}
 		if f.Replay.Stream == "stored" {
 			c16StoredCase(r, rng, f.Replay.Profile, &ops, &impl, &cases)
+		} else if f.Replay.Stream == "diff" {
+			c16DiffCaseRun(r, f.Replay.Diff, &ops, &impl, &cases)
+		} else if c16ReplayExt(r, rng, f.Replay.Stream, b, &ops, &impl, &cases) {
 		} else {
 			c16RunMerge(r, rng, f.Replay.Merge, &ops, &impl, &cases)
 		}
@@ -974,6 +978,7 @@ func c16(r *h.Result, rng *h.Rng, tier string, replay string) error {
 			r.Sample(map[string]any{"stream": "merge", "profiles": len(m.Profiles), "type": m.Profiles[0].Types[m.Type], "orders": m.Orders})
 		}
 	}
+	c16Ext(r, rng, tier, &ops, &impl, &cases)
 	// run the model in chunks (one driver process per chunk)
 	return c16Compare(r, ops, impl, cases)
 }
@@ -995,6 +1000,8 @@ func c16Compare(r *h.Result, ops, impl []string, cases []any) error {
 				stream := "stored"
 				if strings.HasPrefix(ops[k], "c16flame") {
 					stream = "merge"
+				} else if s := c16ExtStream(ops[k]); s != "" {
+					stream = s
 				}
 				op := ops[k]
 				if len(op) > 2000 {
